@@ -37,7 +37,11 @@ Definition stmt_ok (E : cenv) (locals : list tkind) (st : tstmt) : Prop :=
   | TExec rv => rv_ok E rv T_VOID
   | TObserve _ _ _ => True
   end.
-Definition term_ok (t : option term) : Prop := match t with Some (TmBrCond c _ _) => concrete (td c) = Some T_BOOL | _ => True end.
+(* while the translator runs it never writes the unreachable marker (only the final pass of tir::build may) *)
+Definition term_ok (t : option term) : Prop := match t with Some (TmBrCond c _ _) => concrete (td c) = Some T_BOOL | Some TmUnreachable => False | _ => True end.
+Definition term_ok_final (t : option term) : Prop := match t with Some (TmBrCond c _ _) => concrete (td c) = Some T_BOOL | _ => True end.
+Lemma term_ok_weaken t : term_ok t -> term_ok_final t.
+Proof. destruct t as [[l|c a b|a|]|]; cbn; auto. Qed.
 Definition block_ok (E : cenv) (locals : list tkind) (b : block) : Prop := Forall (stmt_ok E locals) (b_stmts b) /\ term_ok (b_term b).
 Definition WT (E : cenv) (s : bstate) : Prop := Forall (block_ok E (bs_locals s)) (bs_blocks s).
 
@@ -626,21 +630,24 @@ Section W.
 End W.
 
 (* ---- the whole translation: the code of every accepted binding or handler is well typed ---- *)
-Definition code_typed (E : cenv) (c : code) : Prop := Forall (block_ok E (c_locals c)) (c_blocks c).
+Definition block_ok_final (E : cenv) (locals : list tkind) (b : block) : Prop := Forall (stmt_ok E locals) (b_stmts b) /\ term_ok_final (b_term b).
+Definition code_typed (E : cenv) (c : code) : Prop := Forall (block_ok_final E (c_locals c)) (c_blocks c).
+Lemma block_ok_weaken E locals b : block_ok E locals b -> block_ok_final E locals b.
+Proof. intros [H1 H2]. split; [exact H1|apply term_ok_weaken; exact H2]. Qed.
 
 Lemma WT_bstate0 E : WT E bstate0.
 Proof. unfold WT. cbn. constructor; [|constructor]. split; [constructor|exact I]. Qed.
 
-Lemma block_ok_set_term E locals b t : (match t with TmBrCond _ _ _ => False | _ => True end) -> block_ok E locals b -> block_ok E locals (set_term b t).
+Lemma block_ok_set_term E locals b t : (match t with TmBrCond _ _ _ => False | _ => True end) -> block_ok_final E locals b -> block_ok_final E locals (set_term b t).
 Proof. intros Ht [H1 H2]. split; cbn [set_term b_stmts b_term]; [exact H1|]. destruct t; try exact I. contradiction. Qed.
 
 Lemma finalize_loop_typed E locals : forall fuel reach blocks tv taken bl, finalize_loop fuel reach blocks tv taken = Ok bl ->
-  Forall (block_ok E locals) blocks -> Forall (block_ok E locals) bl.
+  Forall (block_ok_final E locals) blocks -> Forall (block_ok_final E locals) bl.
 Proof.
   induction fuel as [|k IH]; intros reach blocks tv taken bl H W; [discriminate H|].
   cbn [finalize_loop] in H. destruct (rev tv) as [|i rest_rev]; [inversion H; subst; exact W|].
   destruct (nth_error blocks i) as [b|] eqn:Eb; [|discriminate H].
-  assert (Hup : forall t, (match t with TmBrCond _ _ _ => False | _ => True end) -> Forall (block_ok E locals) (update_nth blocks i (fun b => set_term b t))).
+  assert (Hup : forall t, (match t with TmBrCond _ _ _ => False | _ => True end) -> Forall (block_ok_final E locals) (update_nth blocks i (fun b => set_term b t))).
   { intros t Ht. apply Forall_update_nth; [exact W|]. intros x _ Px. apply block_ok_set_term; assumption. }
   destruct (b_term b) as [[l|c a1 a2|a|]|]; try discriminate H.
   - destruct (b_compl b) as [a|]; [eapply IH; [exact H|apply Hup; exact I]|].
@@ -652,12 +659,20 @@ Qed.
 Theorem build_code_typed E cb c : bu_code (build_callback E cb) = Some c -> code_typed E c.
 Proof.
   intros H. unfold build_callback, finish in H.
-  pose proof (proj1 (WI_walk_callback E cb bstate0 (WT_bstate0 E))) as W.
-  destruct (walk_callback E cb bstate0) as [[[ok env]| |x] s]; try discriminate H. destruct ok; [|discriminate H]. cbn [snd] in W.
+  pose proof (proj1 (WI_walk_callback E cb bstate0 (WT_bstate0 E))) as W0.
+  destruct (walk_callback E cb bstate0) as [[[ok env]| |x] s]; try discriminate H. destruct ok; [|discriminate H]. cbn [snd] in W0.
+  assert (W : Forall (block_ok_final E (bs_locals s)) (bs_blocks s)) by (eapply Forall_impl; [|exact W0]; intros b; apply block_ok_weaken).
   destruct (finalize_completion_values (bs_blocks s) (List.length (bs_blocks s) - 1)) as [bl|msg|site|] eqn:Ef; try discriminate H.
   cbn in H. inversion H; subst. unfold code_typed. cbn [c_blocks c_locals].
   unfold finalize_completion_values in Ef. destruct (nth_error (bs_blocks s) (List.length (bs_blocks s) - 1)) as [sb|]; [|discriminate Ef].
   destruct (b_term sb); [discriminate Ef|]. destruct (b_compl sb) as [a|].
   - inversion Ef; subst. apply Forall_update_nth; [exact W|]. intros x _ Px. apply block_ok_set_term; [exact I|exact Px].
   - destruct (negb (br_targets_ok (bs_blocks s))); [discriminate Ef|]. eapply finalize_loop_typed; [exact Ef|exact W].
+Qed.
+
+(* the translator itself never writes the unreachable marker *)
+Theorem walk_writes_no_unreachable E cb : Forall (fun b => b_term b <> Some TmUnreachable) (bs_blocks (snd (walk_callback E cb bstate0))).
+Proof.
+  pose proof (proj1 (WI_walk_callback E cb bstate0 (WT_bstate0 E))) as W. eapply Forall_impl; [|exact W].
+  intros b [_ Ht] Hu. rewrite Hu in Ht. exact Ht.
 Qed.
